@@ -661,3 +661,75 @@ Proof.
   rewrite is_negative_spec by assumption. rewrite <- Vx. rewrite f_sval_mag.
   pose proof (f_mag_nonneg _ _ HC Hxa). destruct (f_neg (cls t) xa); split; intros; try reflexivity; exfalso; nia.
 Qed.
+
+(* ------------------------------------------------------------------------------------------------ *)
+(* C04 for division (non-zero divisor; division by zero: v_div_by_zero) *)
+
+Lemma sgn_sval C b : fmt_ok C -> buf_ok C b -> f_zero b = false ->
+  Z.sgn (f_sval C b) = (if f_neg C b then -1 else 1).
+Proof.
+  intros HC Hb Hz. pose proof (f_mag_pos C b HC Hb Hz). rewrite f_sval_mag.
+  destruct (f_neg C b); [apply Z.sgn_neg | apply Z.sgn_pos]; lia.
+Qed.
+
+Theorem idiv_sval C a b : fmt_ok2 C -> mbits C <= 56 -> buf_ok C a -> buf_ok C b -> f_zero b = false ->
+  sval_post C true 1 1 (f_sval C a * 2 ^ c_bias C * Z.sgn (f_sval C b)) (f_mag C b) (mbf_idiv C a b).
+Proof.
+  intros HC Hm Ha Hb Hzb. pose proof HC as [HC1 _].
+  apply (mag_to_sval C true 1 1 (f_mag C a * 2 ^ c_bias C) _ (negb (Bool.eqb (f_neg C a) (f_neg C b)))).
+  - pose proof (f_mag_nonneg C a HC1 Ha). assert (0 < 2 ^ c_bias C); [|nia].
+    apply pow2_pos. rewrite (ok_bias C HC1). pose proof (mbits_ge C HC1). lia.
+  - rewrite (sgn_sval C b HC1 Hb Hzb). rewrite f_sval_mag.
+    destruct (f_neg C a), (f_neg C b); cbn [Bool.eqb negb]; lia.
+  - apply idiv_post; assumption.
+Qed.
+
+Theorem v_div_post x y : value_ok x -> value_ok y -> is_num x = true -> is_num y = true ->
+  value_scaled y <> 0 ->
+  val_post (widest x y) true 1 1 (value_scaled x * 2 ^ 184 * Z.sgn (value_scaled y)) (Z.abs (value_scaled y))
+           (v_div true x y) (v_div false x y).
+Proof.
+  intros Hx Hy Nx Ny Vy0.
+  destruct (promote_spec x y Hx Hy Nx Ny) as (xa & ya & Hxa & Hya & Vx & Vy & _ & _ & Harith). cbv zeta in *.
+  set (t := widest x y) in *. pose proof (widest_cases x y) as Ht. fold t in Ht.
+  assert (Hm : forall hard, v_div hard x y = rmap (mkf t) (f_div hard (cls t) xa ya)).
+  { intros hard. unfold v_div. rewrite v_num2_arith by assumption. apply Harith. }
+  rewrite !Hm. unfold f_div.
+  pose proof (cls_ok t) as HC2. pose proof HC2 as [HC _].
+  destruct (tag_cases t Ht) as (Hmb & _ & _ & _ & Hsc).
+  assert (Hzy : f_zero ya = false).
+  { destruct (f_zero ya) eqn:E; [|reflexivity]. apply (sval_zero_iff _ _ HC Hya) in E. rewrite E in Vy. lia. }
+  rewrite is_zero_spec, Hzy.
+  assert (Hm56 : mbits (cls t) <= 56) by (rewrite Hmb; unfold fbits; destruct (t =? 8); lia).
+  pose proof (idiv_sval (cls t) xa ya HC2 Hm56 Hxa Hya Hzy) as Hs.
+  pose proof (f_mag_pos _ _ HC Hya Hzy) as HDn.
+  assert (Hsg : Z.sgn (value_scaled y) = Z.sgn (f_sval (cls t) ya)).
+  { rewrite <- Vy. rewrite Z.sgn_mul, (Z.sgn_pos (scale_of t)) by lia. lia. }
+  assert (HN : value_scaled x * 2 ^ 184 * Z.sgn (value_scaled y)
+               = f_sval (cls t) xa * 2 ^ c_bias (cls t) * Z.sgn (f_sval (cls t) ya) * (scale_of t * scale_of t)).
+  { rewrite Hsg, <- Vx, <- (D184 t Ht). lia. }
+  assert (HD : Z.abs (value_scaled y) = f_mag (cls t) ya * scale_of t).
+  { rewrite <- Vy, Z.abs_mul, (Z.abs_eq (scale_of t)) by lia. rewrite (sval_abs _ _ HC Hya). reflexivity. }
+  apply (val_of_sval t true 1 1 _ _ _ _ _ _ Ht HDn ltac:(lia) ltac:(lia) Hs HN HD).
+  - intros Er. f_equal. rewrite !is_negative_spec by assumption.
+    destruct Hs as [H1 _]. rewrite Er in H1. destruct H1 as [_ Hlt].
+    pose proof (mbits_ge _ HC).
+    assert (Hpos : 0 <= (2 ^ mbits (cls t) - 1) * 2 ^ 255 * f_mag (cls t) ya).
+    { assert (2 <= 2 ^ mbits (cls t)) by (change 2 with (2 ^ 1) at 1; apply pow2_le; lia).
+      assert (0 < 2 ^ 255) by (apply pow2_pos; lia). nia. }
+    assert (Hnz : f_sval (cls t) xa <> 0).
+    { intro E0. rewrite E0, !Z.mul_0_l in Hlt. change (Z.abs 0) with 0 in Hlt. lia. }
+    assert (Hza : f_zero xa = false).
+    { destruct (f_zero xa) eqn:E; [|reflexivity]. apply (sval_zero_iff _ _ HC Hxa) in E. contradiction. }
+    rewrite HN. rewrite (sgn_sval _ _ HC Hya Hzy).
+    pose proof (f_mag_pos _ _ HC Hxa Hza) as Hpa. rewrite (f_sval_mag _ xa).
+    assert (Hpb : 0 < 2 ^ c_bias (cls t)) by (apply pow2_pos; rewrite (ok_bias _ HC); lia).
+    set (ma := f_mag (cls t) xa) in *. set (B := 2 ^ c_bias (cls t)) in *. set (sc := scale_of t) in *.
+    assert (Hprod : 0 < ma * B * (sc * sc)) by (clear - Hpa Hpb Hsc; nia).
+    destruct (f_neg (cls t) xa), (f_neg (cls t) ya); cbn [Bool.eqb negb]; symmetry.
+    + apply Z.ltb_ge. replace (- ma * B * -1 * (sc * sc)) with (ma * B * (sc * sc)) by lia. lia.
+    + apply Z.ltb_lt. replace (- ma * B * 1 * (sc * sc)) with (- (ma * B * (sc * sc))) by lia. lia.
+    + apply Z.ltb_lt. replace (ma * B * -1 * (sc * sc)) with (- (ma * B * (sc * sc))) by lia. lia.
+    + apply Z.ltb_ge. replace (ma * B * 1 * (sc * sc)) with (ma * B * (sc * sc)) by lia. lia.
+  - apply (host_of_sval _ _ _ _ _ _ _ Hs).
+Qed.
